@@ -105,279 +105,12 @@ Proof.
   rewrite Hw. rewrite payload_data_frames in Hpay. exists out, e, x', tl. auto.
 Qed.
 
-(** * The body: Content-Length accounting *)
-Definition binv (b : body) (cur : list Z) (fs : list wframe) : Prop :=
-  b_has b = true /\ b_violated b = false /\ b_cancels b = [] /\ 0 <= b_rem b /\ sinv (b_str b) cur fs.
-
-Definition reset_both : list (Z * Z) := [(0, h3ErrCodeMessageError); (1, h3ErrCodeMessageError)].
-
-Lemma check_cl_quiet (b : body) (cur : list Z) (fs : list wframe) :
-  binv b cur fs -> (b_rem b = 0 -> cur = []) -> check_cl b = (None, b).
-Proof.
-  intros (Hh & Hv & Hc & Hr & (Hx & _)) H0. unfold check_cl. rewrite Hh. cbn [negb].
-  destruct (Z.ltb_spec (b_rem b) 0); [lia|]. cbn [orb].
-  destruct (Z.eqb_spec (b_rem b) 0) as [E|E]; [|reflexivity].
-  rewrite Hx, (H0 E). reflexivity.
-Qed.
-
-Lemma check_cl_fires (b : body) (cur : list Z) (fs : list wframe) :
-  binv b cur fs -> b_rem b = 0 -> cur <> [] ->
-  exists b', check_cl b = (Some ETooMuchData, b') /\ b_cancels b' = reset_both /\ b_violated b' = true /\
-             b_str b' = b_str b.
-Proof.
-  intros (Hh & Hv & Hc & Hr & (Hx & _)) H0 Hne. unfold check_cl. rewrite Hh, H0, Hx, Hv, Hc. cbn.
-  assert (0 < zlen cur) by (destruct cur; [congruence|unfold zlen; simpl; lia]).
-  destruct (Z.ltb_spec 0 (zlen cur)); [|lia]. eexists. split; [reflexivity|]. auto.
-Qed.
-
-Lemma binv_mk (x : stream) (r : Z) (cur : list Z) (fs : list wframe) :
-  0 <= r -> sinv x cur fs -> binv (mkBody x r true false []) cur fs.
-Proof. intros. repeat split; cbn; auto; apply H0. Qed.
-
-Definition bdlen (b : body) : nat := dlen (b_str b).
-
-(** One body.Read when MORE payload remains than the Content-Length allows. *)
-Lemma body_read_over_step (b : body) (cur : list Z) (fs : list wframe) (blen : Z) :
-  binv b cur fs -> b_rem b < zlen (cur ++ payload fs) ->
-  exists out e b',
-    body_read b blen = (out, e, b') /\
-    ((e = None /\ exists cur' fs', binv b' cur' fs' /\ b_rem b' < zlen (cur' ++ payload fs') /\
-                   cur ++ payload fs = out ++ cur' ++ payload fs' /\ b_rem b' = b_rem b - zlen out /\
-                   (0 < blen -> (bdlen b' < bdlen b)%nat))
-     \/ (e = Some ETooMuchData /\ zlen out = b_rem b /\ (exists tl, cur ++ payload fs = out ++ tl) /\
-         b_cancels b' = reset_both)).
-Proof.
-  intros Hinv Hover. pose proof Hinv as (Hh & Hv & Hc & Hr & Hs).
-  destruct b as [x0 r0 h0 v0 c0']. cbn [b_str b_rem b_has b_violated b_cancels] in *. subst h0 v0 c0'.
-  unfold body_read. cbn [b_str b_rem b_has b_violated b_cancels].
-  destruct (Z.eq_dec r0 0) as [E0|E0]; [destruct cur as [|c0 cur0]|].
-  - (* nothing owed, no frame open: the next frame decides *)
-    subst r0. rewrite (check_cl_quiet _ [] fs Hinv) by auto.
-    destruct (stream_read_step x0 [] fs (Z.min blen 0) Hs)
-      as (out & e & x1 & cur1 & fs1 & Hrd & Hcase & Hpay & Hlen & Hq & Hprog & Hdl & _).
-    rewrite Hrd. cbv beta iota. assert (Hout : out = []) by (apply zlen_nil_inv; lia). subst out.
-    destruct Hcase as [[-> Hinv1]|(-> & -> & -> & Hinv1)].
-    + change (zlen (@nil Z)) with 0. rewrite Z.sub_0_r.
-      set (b1 := mkBody x1 0 true false []).
-      assert (Hb1 : binv b1 cur1 fs1) by (apply binv_mk; auto; lia).
-      destruct cur1 as [|c1 cur1'].
-      * rewrite (check_cl_quiet b1 [] fs1 Hb1) by auto. cbn [option_map].
-        exists [], None, b1. split; [reflexivity|]. left. split; [reflexivity|].
-        exists [], fs1. split; [exact Hb1|]. cbn [app] in *. rewrite <- Hpay.
-        split; [cbn; lia|]. split; [reflexivity|]. split; [cbn; lia|].
-        intros _. unfold bdlen. cbn. apply Hprog; auto.
-      * destruct (check_cl_fires b1 (c1 :: cur1') fs1 Hb1 eq_refl ltac:(discriminate)) as (b2 & Hc2 & Hcc & _).
-        rewrite Hc2. exists [], (Some ETooMuchData), b2. split; [reflexivity|]. right.
-        split; [reflexivity|]. split; [unfold zlen; simpl; lia|]. split; [|exact Hcc].
-        eexists. reflexivity.
-    + exfalso. cbn [app] in Hpay. rewrite Hpay in Hover. unfold zlen in Hover. cbn in Hover. lia.
-  - (* nothing owed but a DATA frame is open: violation *)
-    destruct (check_cl_fires _ (c0 :: cur0) fs Hinv E0 ltac:(discriminate)) as (b2 & Hc2 & Hcc & _).
-    rewrite Hc2. exists [], (Some ETooMuchData), b2. split; [reflexivity|]. right.
-    split; [reflexivity|]. split; [unfold zlen; simpl; lia|]. split; [|exact Hcc].
-    eexists. reflexivity.
-  - rewrite (check_cl_quiet _ cur fs Hinv) by (cbn; intros; lia).
-    destruct (stream_read_step x0 cur fs (Z.min blen r0) Hs)
-      as (out & e & x1 & cur1 & fs1 & Hrd & Hcase & Hpay & Hlen & Hq & Hprog & Hdl & _).
-    rewrite Hrd. cbv beta iota.
-    assert (Hol : zlen out <= r0) by lia.
-    destruct Hcase as [[-> Hinv1]|(-> & -> & -> & Hinv1)].
-    + set (b1 := mkBody x1 (r0 - zlen out) true false []).
-      assert (Hb1 : binv b1 cur1 fs1) by (apply binv_mk; auto; lia).
-      assert (Hrem1 : r0 - zlen out < zlen (cur1 ++ payload fs1)).
-      { rewrite Hpay in Hover. rewrite zlen_app in Hover. lia. }
-      destruct (Z.eq_dec (r0 - zlen out) 0) as [E1|E1]; [destruct cur1 as [|c1 cur1']|].
-      * rewrite (check_cl_quiet b1 [] fs1 Hb1) by auto. cbn [option_map].
-        exists out, None, b1. split; [reflexivity|]. left. split; [reflexivity|].
-        exists [], fs1. split; [exact Hb1|]. split; [exact Hrem1|]. split; [exact Hpay|]. split; [reflexivity|].
-        intros Hb. unfold bdlen. cbn. apply Hprog; auto. left. lia.
-      * destruct (check_cl_fires b1 (c1 :: cur1') fs1 Hb1 E1 ltac:(discriminate)) as (b2 & Hc2 & Hcc & _).
-        rewrite Hc2. exists out, (Some ETooMuchData), b2. split; [reflexivity|]. right.
-        split; [reflexivity|]. split; [lia|]. split; [|exact Hcc]. eexists. exact Hpay.
-      * rewrite (check_cl_quiet b1 cur1 fs1 Hb1) by (cbn; intros; lia). cbn [option_map].
-        exists out, None, b1. split; [reflexivity|]. left. split; [reflexivity|].
-        exists cur1, fs1. split; [exact Hb1|]. split; [exact Hrem1|]. split; [exact Hpay|]. split; [reflexivity|].
-        intros Hb. unfold bdlen. cbn. apply Hprog; auto. left. lia.
-    + exfalso. cbn [app] in Hpay. rewrite Hpay, app_nil_r in Hover. lia.
-Qed.
-
-Lemma body_reads_over : forall (bufs : list Z) (b : body) (cur : list Z) (fs : list wframe),
-  binv b cur fs -> b_rem b < zlen (cur ++ payload fs) ->
-  exists out e b' tl,
-    body_reads b bufs = (out, e, b') /\
-    cur ++ payload fs = out ++ tl /\
-    ((e = None /\ zlen out <= b_rem b /\ b_cancels b' = []) \/
-     (e = Some ETooMuchData /\ zlen out = b_rem b /\ b_cancels b' = reset_both)) /\
-    (all_pos bufs -> (bdlen b < length bufs)%nat -> e = Some ETooMuchData).
-Proof.
-  induction bufs as [|n bufs IH]; intros b cur fs Hinv Hover.
-  - exists [], None, b, (cur ++ payload fs). cbn. pose proof Hinv as (_ & _ & Hc & Hr & _).
-    change (zlen (@nil Z)) with 0.
-    split; [reflexivity|]. split; [reflexivity|]. split; [left; auto|]. intros _ H. lia.
-  - destruct (body_read_over_step b cur fs n Hinv Hover) as (out & e & b1 & Hr & Hcase).
-    cbn [body_reads]. rewrite Hr.
-    destruct Hcase as [(-> & cur1 & fs1 & Hinv1 & Hover1 & Hpay & Hrem & Hprog)|(-> & Hlen & [tl Hpay] & Hcc)].
-    + destruct (IH b1 cur1 fs1 Hinv1 Hover1) as (out2 & e2 & b2 & tl & Hr2 & Hpay2 & He2 & Hlive).
-      rewrite Hr2. exists (out ++ out2), e2, b2, tl.
-      split; [reflexivity|]. split; [rewrite Hpay, Hpay2, app_assoc; reflexivity|].
-      split.
-      { rewrite zlen_app. destruct He2 as [(-> & Hl & Hc2)|(-> & Hl & Hc2)]; [left|right]; repeat split; auto; lia. }
-      intros Hpos Hl. inversion Hpos; subst. apply Hlive; [assumption|].
-      specialize (Hprog ltac:(assumption)). cbn [length] in Hl. lia.
-    + exists out, (Some ETooMuchData), b1, tl.
-      split; [reflexivity|]. split; [exact Hpay|]. split; [right; auto|]. auto.
-Qed.
-
-(** One body.Read when the payload that remains does NOT exceed what is still owed
-    (Content-Length exact, or larger than the body): the check never fires, so a short body
-    ends with the stream's plain EOF. *)
-Lemma body_read_le_step (b : body) (cur : list Z) (fs : list wframe) (blen : Z) :
-  binv b cur fs -> zlen (cur ++ payload fs) <= b_rem b ->
-  exists out e b' cur' fs',
-    body_read b blen = (out, e, b') /\
-    binv b' cur' fs' /\ zlen (cur' ++ payload fs') <= b_rem b' /\
-    cur ++ payload fs = out ++ cur' ++ payload fs' /\ b_rem b' = b_rem b - zlen out /\
-    (e = None \/ (e = Some EEOF /\ cur' = [] /\ fs' = [])) /\
-    (0 < blen -> e = None -> (bdlen b' < bdlen b)%nat).
-Proof.
-  intros Hinv Hle. pose proof Hinv as (Hh & Hv & Hc & Hr & Hs).
-  destruct b as [x0 r0 h0 v0 c0']. cbn [b_str b_rem b_has b_violated b_cancels] in *. subst h0 v0 c0'.
-  assert (Hcur0 : r0 = 0 -> cur = []).
-  { intros E. rewrite zlen_app in Hle. pose proof (zlen_nonneg (payload fs)). apply zlen_nil_inv. lia. }
-  unfold body_read. rewrite (check_cl_quiet _ cur fs Hinv Hcur0). cbn [b_str b_rem b_has b_violated b_cancels].
-  destruct (stream_read_step x0 cur fs (Z.min blen r0) Hs)
-    as (out & e & x1 & cur1 & fs1 & Hrd & Hcase & Hpay & Hlen & Hq & Hprog & Hdl & _).
-  rewrite Hrd. cbv beta iota.
-  assert (Hol : zlen out <= r0) by lia.
-  set (b1 := mkBody x1 (r0 - zlen out) true false []).
-  assert (Hle1 : zlen (cur1 ++ payload fs1) <= r0 - zlen out).
-  { rewrite Hpay in Hle. rewrite zlen_app in Hle. lia. }
-  assert (Hb1 : binv b1 cur1 fs1).
-  { destruct Hcase as [[_ Hi]|(_ & -> & -> & Hi)]; apply binv_mk; auto; lia. }
-  assert (Hq1 : check_cl b1 = (None, b1)).
-  { apply (check_cl_quiet b1 cur1 fs1 Hb1). cbn. intros E. rewrite E in Hle1. rewrite zlen_app in Hle1.
-    pose proof (zlen_nonneg (payload fs1)). apply zlen_nil_inv. lia. }
-  rewrite Hq1. exists out, (option_map replace_error e), b1, cur1, fs1.
-  split; [reflexivity|]. split; [exact Hb1|]. split; [exact Hle1|]. split; [exact Hpay|].
-  split; [reflexivity|]. split.
-  { destruct Hcase as [[-> _]|(-> & -> & -> & _)]; cbn; auto. }
-  intros Hb He. unfold bdlen. cbn. apply Hprog.
-  - destruct (Z.eq_dec r0 0) as [E|E]; [right; auto|left; lia].
-  - destruct e; [discriminate|reflexivity].
-Qed.
-
-Lemma body_reads_le : forall (bufs : list Z) (b : body) (cur : list Z) (fs : list wframe),
-  binv b cur fs -> zlen (cur ++ payload fs) <= b_rem b ->
-  exists out e b' tl,
-    body_reads b bufs = (out, e, b') /\
-    cur ++ payload fs = out ++ tl /\
-    (e = None \/ (e = Some EEOF /\ tl = [])) /\
-    b_cancels b' = [] /\ b_rem b' = b_rem b - zlen out /\
-    (all_pos bufs -> (bdlen b < length bufs)%nat -> e = Some EEOF).
-Proof.
-  induction bufs as [|n bufs IH]; intros b cur fs Hinv Hle.
-  - exists [], None, b, (cur ++ payload fs). cbn. pose proof Hinv as (_ & _ & Hc & _).
-    change (zlen (@nil Z)) with 0.
-    split; [reflexivity|]. split; [reflexivity|]. split; [left; reflexivity|]. split; [exact Hc|].
-    split; [lia|]. intros _ H. lia.
-  - destruct (body_read_le_step b cur fs n Hinv Hle)
-      as (out & e & b1 & cur1 & fs1 & Hr & Hinv1 & Hle1 & Hpay & Hrem & He & Hprog).
-    cbn [body_reads]. rewrite Hr.
-    destruct He as [->|(-> & -> & ->)].
-    + destruct (IH b1 cur1 fs1 Hinv1 Hle1) as (out2 & e2 & b2 & tl & Hr2 & Hpay2 & He2 & Hc2 & Hrem2 & Hlive).
-      rewrite Hr2. exists (out ++ out2), e2, b2, tl.
-      split; [reflexivity|]. split; [rewrite Hpay, Hpay2, app_assoc; reflexivity|].
-      split; [exact He2|]. split; [exact Hc2|]. split; [rewrite zlen_app; lia|].
-      intros Hpos Hl. inversion Hpos; subst. apply Hlive; [assumption|].
-      specialize (Hprog ltac:(assumption) eq_refl). cbn [length] in Hl. lia.
-    + exists out, (Some EEOF), b1, []. pose proof Hinv1 as (_ & _ & Hc & _). cbn [app] in Hpay.
-      split; [reflexivity|]. split; [rewrite Hpay; reflexivity|]. split; [right; auto|].
-      split; [exact Hc|]. split; [exact Hrem|]. auto.
-Qed.
-
-Lemma new_body_binv (fs : list wframe) (sched : list Z) (fw : bool) (maxHdr cl : Z) :
-  Forall wf_frame fs -> 0 <= cl ->
-  binv (new_body (new_stream (mkSrc (wire fs) sched EEOF fw) maxHdr) cl) [] fs /\
-  b_rem (new_body (new_stream (mkSrc (wire fs) sched EEOF fw) maxHdr) cl) = cl /\
-  bdlen (new_body (new_stream (mkSrc (wire fs) sched EEOF fw) maxHdr) cl) = length (wire fs).
-Proof.
-  intros Hw Hcl. unfold new_body. destruct (Z.leb_spec 0 cl); [|lia].
-  split; [|split; reflexivity]. repeat split; auto.
-Qed.
-
-(** Body longer than declared: errTooMuchData after exactly the declared bytes, both
-    directions reset with H3_MESSAGE_ERROR; never EOF, never more than declared. *)
-Theorem content_length_over (fs : list wframe) (sched : list Z) (fw : bool) (maxHdr cl : Z) (bufs : list Z) :
-  Forall wf_frame fs -> 0 <= cl < zlen (payload fs) ->
-  exists out e b' tl,
-    body_reads (new_body (new_stream (mkSrc (wire fs) sched EEOF fw) maxHdr) cl) bufs = (out, e, b') /\
-    payload fs = out ++ tl /\
-    ((e = None /\ zlen out <= cl /\ b_cancels b' = []) \/
-     (e = Some ETooMuchData /\ zlen out = cl /\ b_cancels b' = reset_both)) /\
-    (all_pos bufs -> (length (wire fs) < length bufs)%nat -> e = Some ETooMuchData).
-Proof.
-  intros Hw Hcl. destruct (new_body_binv fs sched fw maxHdr cl Hw ltac:(lia)) as (Hinv & Hrem & Hdl).
-  destruct (body_reads_over bufs _ [] fs Hinv) as (out & e & b' & tl & Hr & Hpay & He & Hlive).
-  { rewrite Hrem. cbn [app]. lia. }
-  rewrite Hrem in He. rewrite Hdl in Hlive. exists out, e, b', tl. cbn [app] in Hpay.
-  split; [exact Hr|]. split; [exact Hpay|]. split; [exact He|]. exact Hlive.
-Qed.
-
-(** Body not longer than declared (exact or SHORTER): the reads deliver the payload and the
-    only error is the plain EOF of the stream -- also when bytes are still owed. *)
-Theorem content_length_le (fs : list wframe) (sched : list Z) (fw : bool) (maxHdr cl : Z) (bufs : list Z) :
-  Forall wf_frame fs -> zlen (payload fs) <= cl ->
-  exists out e b' tl,
-    body_reads (new_body (new_stream (mkSrc (wire fs) sched EEOF fw) maxHdr) cl) bufs = (out, e, b') /\
-    payload fs = out ++ tl /\
-    (e = None \/ (e = Some EEOF /\ tl = [])) /\
-    b_cancels b' = [] /\ b_rem b' = cl - zlen out /\
-    (all_pos bufs -> (length (wire fs) < length bufs)%nat -> e = Some EEOF).
-Proof.
-  intros Hw Hcl. pose proof (zlen_nonneg (payload fs)).
-  destruct (new_body_binv fs sched fw maxHdr cl Hw ltac:(lia)) as (Hinv & Hrem & Hdl).
-  destruct (body_reads_le bufs _ [] fs Hinv) as (out & e & b' & tl & Hr & Hpay & He & Hc & Hrm & Hlive).
-  { rewrite Hrem. cbn [app]. lia. }
-  rewrite Hrem in Hrm. rewrite Hdl in Hlive. exists out, e, b', tl. cbn [app] in Hpay.
-  split; [exact Hr|]. split; [exact Hpay|]. split; [exact He|]. split; [exact Hc|]. split; [exact Hrm|]. exact Hlive.
-Qed.
-
-(** * The candidate finding, on the model: a body SHORTER than its Content-Length ends with a
-    plain EOF.  Witness: Content-Length 5, one DATA frame "abc", clean end of stream. *)
-Definition under_witness_frames : list wframe := [WData [0] [3] [97; 98; 99]].
-
 Lemma venc_1byte (v : Z) : 0 <= v < 64 -> venc [v] v.
 Proof.
   intros H rest. cbn [app vparse]. replace (v / 64) with 0 by (symmetry; apply Z.div_small; lia).
   cbn. rewrite Z.mod_small by lia. reflexivity.
 Qed.
 
-Lemma under_witness_wf : Forall wf_frame under_witness_frames.
-Proof. repeat constructor; apply venc_1byte; lia. Qed.
-
-Lemma content_length_under_witness :
-  exists (fs : list wframe) (cl : Z) (bufs : list Z) (b' : body),
-    Forall wf_frame fs /\ zlen (payload fs) < cl /\
-    body_reads (new_body (new_stream (mkSrc (wire fs) [] EEOF false) 1000) cl) bufs = (payload fs, Some EEOF, b') /\
-    b_cancels b' = [] /\ 0 < b_rem b'.
-Proof.
-  exists under_witness_frames, 5, [16; 16]. eexists.
-  split; [exact under_witness_wf|]. split; [vm_compute; reflexivity|].
-  split; [vm_compute; reflexivity|]. split; vm_compute; reflexivity.
-Qed.
-
-(** ... and not only for the witness: whenever fewer bytes arrive than declared, the only error
-    a caller can ever see is the plain EOF, with [cl - |payload|] bytes still owed. *)
-Corollary content_length_under_always_eof (fs : list wframe) (sched : list Z) (fw : bool) (maxHdr cl : Z) (bufs : list Z) :
-  Forall wf_frame fs -> zlen (payload fs) < cl -> all_pos bufs -> (length (wire fs) < length bufs)%nat ->
-  exists b', body_reads (new_body (new_stream (mkSrc (wire fs) sched EEOF fw) maxHdr) cl) bufs = (payload fs, Some EEOF, b') /\
-             b_cancels b' = [] /\ b_rem b' = cl - zlen (payload fs) /\ 0 < b_rem b'.
-Proof.
-  intros Hw Hcl Hpos Hlen.
-  destruct (content_length_le fs sched fw maxHdr cl bufs Hw ltac:(lia)) as (out & e & b' & tl & Hr & Hpay & He & Hc & Hrm & Hlive).
-  specialize (Hlive Hpos Hlen). subst e. destruct He as [He|[_ ->]]; [discriminate|].
-  rewrite app_nil_r in Hpay. subst out. exists b'. repeat split; auto. lia.
-Qed.
 
 (** Non-vacuity material: a concrete well-formed sequence with an unknown (GREASE) frame, a
     non-minimally encoded DATA header and an empty DATA frame. *)
